@@ -4,6 +4,7 @@ package db
 
 import (
 	"context"
+	"time"
 
 	"github.com/couchbase/sync_gateway/base"
 	"github.com/couchbase/sync_gateway/channels"
@@ -126,14 +127,39 @@ func VHarness_C01_SingleChannel() {
 	maxLen := vNondetRange(1, vParam("maxlen", 2))
 	c := vhNewSingleCache(t, cur, maxLen) // a new cache is valid from the next sequence
 	k := vParam("ops", 3)
+	clock := int64(1000)
 	for op := 0; op < k; op++ {
-		if vNondetBool() {
+		kind := vNondetRange(0, vParam("kinds", 3)-1)
+		if kind == 0 {
 			// feed: a new revision of some document enters (or stays in) the channel at the next sequence
 			d := vNondetRange(0, vhNDocs-1)
 			t.seqOff[d] = cur
-			c.addToCache(context.Background(), &LogEntry{Sequence: n + uint64(cur), DocID: vhDocNames[d], RevID: "2-b"}, false)
+			clock += 10
+			c.addToCache(context.Background(), &LogEntry{Sequence: n + uint64(cur), DocID: vhDocNames[d], RevID: "2-b", TimeReceived: channels.FeedTimestamp(clock)}, false)
 			cur++
 			vhCacheWellFormed(c, t, "after feed")
+		} else if kind == 2 {
+			// purge of a document whose latest revision came through the feed: its entries received before the purge
+			// started leave the cache (and the channel); an entry received after the purge started (the document was
+			// written again meanwhile) stays
+			d := vNondetRange(0, vhNDocs-1)
+			vAssume(t.seqOff[d] >= pre) // revisions older than the cache carry no receive time in this harness
+			recv := int64(0)
+			for _, e := range c.logs {
+				if e.DocID == vhDocNames[d] {
+					recv = int64(e.TimeReceived)
+				}
+			}
+			start := clock + 5 // purge started after everything received so far ...
+			if vNondetBool() {
+				start = recv - 5 // ... or before this document's cached revision arrived
+				vCover("purge-resurrected")
+			} else {
+				t.seqOff[d] = -1
+				vCover("purged")
+			}
+			c.Remove(context.Background(), 0, []string{vhDocNames[d]}, time.Unix(0, start))
+			vhCacheWellFormed(c, t, "after purge")
 		} else {
 			sinceOff := vNondetRange(-1, cur-1)
 			limit := vNondetRange(0, 2)
